@@ -31,7 +31,9 @@ claim("C13", "proof",
       "static frame analysis + contract-based deductive verification of the memoising methods + random-program bounded checking", "DESIGN 9/C13")
 claim("C18", "exploration",
       "Movement conservation of _get_cursor_vertical_diff_once and get_cursor_vertical_diff (incl. the nested-call shape) is proved "
-      "from contracts over a ghost 'reported row / moved' state (all obligations discharged); the report parse of get_cursor_position "
+      "from contracts over a ghost 'reported row / moved' state (all obligations discharged); CursorAwareWindow.render_to_terminal is "
+      "proved (over the tape-model ghost terminal of C07) to remember exactly the row and column on which it left the terminal's cursor, "
+      "which is what 'since the last render' is measured from; the report parse of get_cursor_position "
       "is regex-driven and decided by an exhaustive bounded suite over scripted streams only.",
       "Assumed: get_cursor_position returns the reported (row, col); nested calls arrive only inside the query; bounds in evidence.rule.",
       "contract-based deductive verification (integer bookkeeping) + exhaustive bounded checking of the regex parse", "DESIGN 9/C18")
